@@ -617,6 +617,43 @@ def profile_phase(rep, binname, items, outl, profiles=("release",), skip=None, a
     return {"profiles_diffed_against_dev": list(profiles), "cases": len(sub), "differences": len(diffs)}
 
 
+HARNESS_NIGHTLY_NOSTD = os.path.join(VERIF, "harness_nightly_nostd")
+
+
+def nostd_build(binname, timeout=1500):
+    """the same harness binary built (cargo +nightly) against the dasp crates WITHOUT their std feature"""
+    crate = HARNESS_NIGHTLY_NOSTD
+    env = dict(harness_env())
+    env["CARGO_TARGET_DIR"] = os.path.join(crate, "target")
+    rc, out = sh(["cargo", "+nightly", "build", "--offline", "--quiet", "--bin", binname], cwd=crate, env=env, timeout=timeout)
+    path = os.path.join(crate, "target", "debug", binname)
+    return rc == 0 and os.path.exists(path), out, path
+
+
+def nostd_phase(rep, binname, items, outl, skip=None, args=()):
+    """Runs the same cases through the no_std-configured build of the crates and reports every case whose
+    observation differs from the std build's (dev profile).  For properties whose statement does not
+    depend on the std feature: the no_std code paths (core intrinsics for sin/cos/floor/powf, cfg-gated
+    branches) must behave identically."""
+    ok, log, path = nostd_build(binname)
+    if not ok:
+        rep.violation("nostd_build", {"kind": "no_std-configured harness does not build (cargo +nightly)", "log": log[-3000:]}, no_input=True)
+        return {"nostd": "build failed"}
+    idx = [i for i, it in enumerate(items) if not (skip and skip(it, outl[i]))]
+    sub = [items[i] for i in idx]
+    rc, out2, err = run_bin_parallel(path, [it["line"] for it in sub], args=args)
+    if len(out2) != len(sub):
+        rep.violation("nostd_run", {"kind": "no_std-configured harness run incomplete", "log": err[-1500:]}, no_input=True)
+        return {"nostd": "run failed"}
+    diffs = [(j, b) for j, (a, b) in enumerate(zip([outl[i] for i in idx], out2)) if a != b]
+    for j, line in diffs[:3]:
+        rep.violation(f"nostd_case{idx[j]}", {
+            "kind": "the crate built without its std feature behaves differently from the std build on a case where the property (and the proved model) has no such dependence",
+            "harness_line": sub[j]["line"], "std_observations": outl[idx[j]], "no_std_observations": line,
+            "replay": f"echo '<harness_line>' | harness_nightly_nostd/target/debug/{binname}"})
+    return {"nostd_cases": len(sub), "nostd_differences": len(diffs)}
+
+
 def shrink_ops(item, rebuild, fails, max_steps=60):
     """Greedy delta-debugging on item['ops'] (a list); rebuild(item, ops) -> new item;
     fails(item) -> bool.  Returns the smallest failing item found."""
